@@ -665,6 +665,68 @@ pub fn run_trunc(tr: &mut Trace, rng: &mut Rng, what: &str, n: usize, part: usiz
                     Err(m) => tr.emit(e.s("panic", &m)),
                 }
             }
+            // signatures valid by construction with s in the classes that matter to the
+            // n - s normalisation of prepare_truncate: pick d, k, s; r = x(kG); h = s*k - r*d
+            if i == 0 {
+                use crrl::p256::{Point, Scalar};
+                use num_bigint::BigUint;
+                let nn = BigUint::parse_bytes(b"ffffffff00000000ffffffffffffffffbce6faada7179e84f3b9cac2fc632551", 16).unwrap();
+                let one = BigUint::from(1u32);
+                let m128: BigUint = &one << 128usize;
+                let nl = &nn % &m128;
+                let nh = &nn >> 128;
+                let mut ss: Vec<BigUint> = vec![one.clone(), (&one << 247) + 5u32, (&one << 200) - 1u32, (&one << 130) + 1u32, BigUint::from(2u32), &nn - 1u32, &nn - 2u32, &one << 255, (&one << 255) - 1u32,
+                    (&one << 255) + 1u32, (&nn - 1u32) >> 1, (&nn + 1u32) >> 1, m128.clone(), &m128 - 1u32, &nh << 128, (&nh << 128) + &nl - 1u32];
+                for _ in 0..(2 + n / 8) {
+                    let hi_big = (BigUint::from_bytes_le(&rng.bytes(16)) % (&nh - (&one << 127))) + (&one << 127); // in [2^127, nh)
+                    let hi_small = BigUint::from_bytes_le(&rng.bytes(16)) >> 1;
+                    for hi in [hi_big, hi_small] {
+                        for lo in [BigUint::from(0u32), one.clone(), nl.clone(), &nl - 1u32, &nl + 1u32, &m128 - 1u32] {
+                            ss.push((&hi << 128) + lo);
+                        }
+                    }
+                }
+                let be32 = |x: &BigUint| { let mut b = x.to_bytes_le(); b.resize(32, 0); b.reverse(); b };
+                for (j, sv) in ss.iter().enumerate() {
+                    if *sv == BigUint::from(0u32) || *sv >= nn { continue; }
+                    let d = BigUint::from_bytes_le(&rng.bytes(40)) % (&nn - 1u32) + 1u32;
+                    let skc = match PrivateKey::decode(&be32(&d)) { Some(x) => x, None => continue };
+                    let pkc = skc.to_public_key();
+                    let want_short = sv.bits() <= 248;
+                    let (mut k, mut r) = (one.clone(), one.clone());
+                    for _ in 0..4000 {
+                        k = BigUint::from_bytes_le(&rng.bytes(40)) % (&nn - 1u32) + 1u32;
+                        let mut kb = k.to_bytes_le(); kb.resize(32, 0);
+                        let (ks, _) = Scalar::decode32(&kb);
+                        let rp = Point::mulgen(&ks).encode_uncompressed();
+                        r = BigUint::from_bytes_be(&rp[1..33]) % &nn;
+                        if !want_short || r.bits() <= 248 { break; }
+                    }
+                    if r == BigUint::from(0u32) { continue; }
+                    let h = (sv * &k + &nn * &nn - (&r * &d) % &nn) % &nn;
+                    let hvc = be32(&h);
+                    let mut sigc = be32(&r); sigc.extend_from_slice(&be32(sv));
+                    // the short form of the same signature when both integers have leading zero bytes
+                    let z = sigc[..32].iter().take_while(|&&b| b == 0).count().min(sigc[32..].iter().take_while(|&&b| b == 0).count());
+                    if z > 0 && j % 2 == 0 { let mut t = sigc[z..32].to_vec(); t.extend_from_slice(&sigc[32 + z..]); sigc = t; }
+                    let s2 = sigc.clone();
+                    let e = Ev::new("p256_prepare").b("sig", &sigc);
+                    let prep = match guarded(move || PrivateKey::prepare_truncate(&s2)) {
+                        Ok(Some(p)) => { tr.emit(e.t("some", true).b("out", &p)); p.to_vec() }
+                        Ok(None) => { tr.emit(e.t("some", false)); continue; }
+                        Err(m) => { tr.emit(e.s("panic", &m)); continue; }
+                    };
+                    let rm = 8 + (j * 7) % 25;
+                    let c = overwrite_tail(&prep, rm, &fills(rng, j));
+                    let (c2, h2) = (c.clone(), hvc.clone());
+                    let e = Ev::new("p256_trunc").b("pk", &pkc.encode_uncompressed()).b("hv", &hvc).b("orig", &prep).b("sig", &c).n("rm", rm as i64);
+                    match guarded(move || pkc.verify_trunc_hash(&c2, rm, &h2)) {
+                        Ok(Some(o)) => tr.emit(e.t("some", true).b("out", &o)),
+                        Ok(None) => tr.emit(e.t("some", false)),
+                        Err(m) => tr.emit(e.s("panic", &m)),
+                    }
+                }
+            }
             // range failures of prepare_truncate
             if i == 0 {
                 for bad in [vec![0u8; 64], vec![0xFFu8; 64], sig[..63].to_vec()] {
